@@ -47,8 +47,12 @@ type Ctx struct {
 }
 
 func newCtx(p *Prog, prop, tier string) *Ctx {
-	return &Ctx{P: p, Prop: prop, Tier: tier, Rules: map[string]*ruleStat{}, Funcs: map[string]bool{},
+	c := &Ctx{P: p, Prop: prop, Tier: tier, Rules: map[string]*ruleStat{}, Funcs: map[string]bool{},
 		Extra: map[string]any{}, seenKeys: map[string]bool{}}
+	for _, n := range p.InlineNotes {
+		c.Notes = append(c.Notes, "de-extraction: "+n)
+	}
+	return c
 }
 
 func (c *Ctx) rule(r string) *ruleStat {
